@@ -3879,3 +3879,6 @@ mod tests {
         assert_eq!(remaining_length_to_total_size(268435455), 268435460); // 1 + 4 + 268435455
     }
 }
+
+#[cfg(feature = "verif-hooks")]
+pub mod verif;
